@@ -122,6 +122,23 @@ class IFl:
 F53 = 1 << 53
 
 
+class QuotF:
+    """fl(a / b) for an integer-valued symbolic a and a concrete integer b: not an integer in general, so the only
+    operation the executor accepts on it is trunc(), by the IEEE-754 fact trunc(fl(a / b)) == trunc(a / b) -- which, for
+    the operand range the executor admits (|a| <= 1.3e9, 300 <= b <= 400), is decided bit-precisely by Kani/CBMC on
+    every run (harness c09_float_div_lemma). Anything else on a QuotF is a translation error."""
+    __slots__ = ("a", "b")
+
+    def __init__(self, a, b):
+        self.a, self.b = a, b
+
+    def __repr__(self):
+        return f"fl({self.a} / {self.b})"
+
+
+QUOT_A_MAX = 1_300_000_000
+
+
 class Opaque:
     def __init__(self, what):
         self.what = what
@@ -182,6 +199,8 @@ class State:
     def clone(self):
         s = State()
         s.loops = dict(self.loops)
+        if getattr(self, "forks", None):
+            s.forks = dict(self.forks)
         s.frames = [f.clone() for f in self.frames]
         s.pc = list(self.pc)
         s.panic_msg = self.panic_msg
@@ -1098,6 +1117,10 @@ class Engine:
             return self.mk_float(st, zsimp(Z(A) + Z(B)) if op == "Add" else zsimp(Z(A) - Z(B)), op)
         if op == "Mul":
             return self.mk_float(st, self.mul(A, B) if not (is_conc(A) and is_conc(B)) else A * B, op)
+        if op == "Div" and is_conc(B) and 300 <= B <= 400 and not is_conc(A):
+            if not self.surely_in(A, -QUOT_A_MAX, QUOT_A_MAX) and self.check(z3.Or(Z(A) < -QUOT_A_MAX, Z(A) > QUOT_A_MAX)) != z3.unsat:
+                raise TranslationError("float division: numerator not provably within the range of the division lemma (|a| <= 1.3e9)")
+            return QuotF(A, B)
         if op == "Rem" and is_conc(B) and B != 0:
             # fmod is exact in IEEE-754; for integers it is the truncating remainder
             q, r = self.tdiv(st, A, B)
@@ -1105,6 +1128,8 @@ class Engine:
         raise TranslationError(f"float {op} on symbolic operands (only +, -, *, %, comparisons are exact on integers)")
 
     def binop(self, st, op, a, b):
+        if isinstance(a, QuotF) or isinstance(b, QuotF):
+            raise TranslationError(f"float {op} on an unrounded quotient {a}, {b} (only trunc() is supported)")
         if isinstance(a, (FloatV, IFl)) or isinstance(b, (FloatV, IFl)):
             return self.float_binop(st, op, a, b)
         if isinstance(a, BoolV) and isinstance(b, BoolV):
@@ -1375,14 +1400,20 @@ class Engine:
                 if len(live) == 1 and live[0][0] is True:
                     live[0][1](st)
                     continue
-                # symbolic loop bound: count forking visits of the same block in this activation
-                if visits[key] > self.loop_bound:
-                    ends.append(PathEnd("bound", st, msg=f"loop bound {self.loop_bound} exceeded in {fr.item.name} bb{fr.bb}"))
-                    return
                 feas = []
                 for c, cont in live:
                     if c is True or self.feasible(c):
                         feas.append((c, cont))
+                # symbolic loop bound: count the genuinely forking visits of the same block on this path (a visit whose
+                # branch is decided by the path condition is a concrete iteration and costs nothing)
+                if len(feas) > 1:
+                    forks = getattr(st, "forks", None)
+                    if forks is None:
+                        forks = st.forks = {}
+                    forks[key] = forks.get(key, 0) + 1
+                    if forks[key] > self.loop_bound:
+                        ends.append(PathEnd("bound", st, msg=f"loop bound {self.loop_bound} exceeded in {fr.item.name} bb{fr.bb}"))
+                        return
                 if len(feas) == 1:
                     c, cont = feas[0]
                     if c is not True:
